@@ -583,6 +583,10 @@ class World:
             if conn.db != dbname:
                 self.violate('C15', 'I5', 'wrong-database',
                              f'acquire({dbname!r}) returned {conn!r}')
+            if conn.excused:
+                self.violate('C15', 'I4', 'lent-after-discard',
+                             f'acquire({dbname!r}) returned {conn!r}, which its previous holder handed back '
+                             f'as broken (discard=True): it counts as closed from that moment')
             if conn.state != 'open':
                 self.violate('C15', 'I4', 'lent-not-open',
                              f'acquire({dbname!r}) returned {conn!r} which is {conn.state}')
